@@ -8,6 +8,7 @@ import (
 	"math/rand"
 	"net"
 	"os"
+	"os/exec"
 	"time"
 
 	"verif/internal/fw"
@@ -127,7 +128,42 @@ func (addr4Engine) Run(ctx *fw.Ctx, cs any) {
 			}
 		}
 	}
+	renamed := false
+	if c.Bound && rng.Intn(2) == 0 {
+		// while the server runs, the interface it is bound to gets another name and a different interface takes
+		// over the old one (a udev eth0/eth1 swap, veth re-creation): a bound listener stays with its interface
+		renamed = true
+		first := true
+		for _, bf := range []bool{false, true} {
+			for _, mt := range []byte{1, 3} {
+				xid++
+				mac := []byte{0x02, 0xee, byte(rng.Intn(256)), byte(rng.Intn(256)), byte(rng.Intn(256)), byte(rng.Intn(256))}
+				p := pkt.Request4(xid, mac, mt, pkt.O4(55, 1, 3))
+				if bf {
+					p.Flags = 0x8000
+				}
+				key := fmt.Sprint(len(rows))
+				addrs[key+"g"], addrs[key+"c"] = p.Gi, p.Ci
+				rq := ChainReq{Hex: hex.EncodeToString(p.Bytes()), RxIfName: "ve0", Peer: "10.77.0.99", Port: 68}
+				if first {
+					rq.Exec = [][]string{{"ip", "link", "set", "ve0", "name", "vx0"}, {"ip", "link", "set", "vf0", "name", "ve0"}}
+					first = false
+				}
+				job.Reqs = append(job.Reqs, rq)
+				rows = append(rows, addrRow{gi: "zero", ci: "zero", bflag: bf, mt: mt, arrival: "ve0", mac: mac,
+					desc: fmt.Sprintf("giaddr=zero ciaddr=zero broadcast-flag=%v type=%d listener=bound(the interface that was called ve0 when the server started; meanwhile it was renamed and another interface is called ve0) arrival=that interface", bf, mt)})
+			}
+		}
+	}
 	out := RunChain(job, ctx.Scratch, 3*time.Minute)
+	if renamed {
+		// (back to the names the rest of the batch expects, whatever became of the child)
+		if _, err := net.InterfaceByName("vx0"); err == nil {
+			exec.Command("ip", "link", "set", "ve0", "name", "vf0").Run()
+			exec.Command("ip", "link", "set", "vx0", "name", "ve0").Run()
+		}
+		ctx.Count("addr4.cases_with_interfaces_renamed_under_a_bound_listener", 1)
+	}
 	conf := fmt.Sprintf("setyi=%v nak=%v bound=%v", c.SetYi, c.Nak, c.Bound)
 	if c.PadTo > 0 {
 		conf += fmt.Sprintf(" replies padded to %d bytes (frame %d bytes, link MTU 1500)", c.PadTo, c.PadTo+42)
